@@ -2,7 +2,7 @@
    The documented PEG semantics is the clean evaluator [peval] of Engine/Calls.v (no memo, no seeds);
    the theorems below are its laws, for every grammar, text, oracle, configuration and frame.        *)
 From Coq Require Import List NArith.
-From TatsuV Require Import Engine.AssocProof.
+From TatsuV Require Import Engine.AssocProof Engine.KeysProof.
 From TatsuV Require Import Base.PyStr Engine.Value Engine.Syntax Engine.Input Engine.Engine Engine.Calls
      Engine.EngineRel Engine.CleanLaws Engine.MemoProof Engine.BoundsProof Engine.FaithfulBounds.
 Import ListNotations.
@@ -113,6 +113,28 @@ Theorem C01_consumed_bounds_faithful :
   parse_with text re_at isalnum isalpha lower upper ic unsafe rules ec act lineat n start = (Ok v f', st) -> pos f' <= len text.
 Proof. exact (parse_consumed_bounds text re_at isalnum isalpha lower upper ic unsafe rules ec act lineat). Qed.
 
+(* THE DICT LAW "a dict of the named elements with None/[] for names that did not match":
+   no construct ever removes a name from the AST of a frame (a unary invariant through every construct) ... *)
+Theorem C01_names_are_never_removed : forall n e f r f',
+  peval' n e f = Ok r f' -> forall k, ast_has (fast f) k = true -> ast_has (fast f') k = true.
+Proof. exact (peval_keys_grow text re_at isalnum isalpha lower upper ic unsafe rules ec act lineat). Qed.
+
+(* ... a sequence defines every name written in it - also those inside optionals, closures, lookaheads and options that
+   will not match - before its first element runs, so after a successful sequence every such name is a key ... *)
+Theorem C01_sequence_defines_all_names : forall n es f r f',
+  peval' (S n) (Seq es) f = Ok r f' ->
+  forall nm, In nm (def_single (Seq es)) \/ In nm (def_list (Seq es)) -> ast_has (fast f') (safekey unsafe nm) = true.
+Proof. exact (peval_sequence_defines_all_names text re_at isalnum isalpha lower upper ic unsafe rules ec act lineat). Qed.
+
+(* ... and the value of a rule whose body is such a sequence (no override) is the dict that holds all of them *)
+Theorem C01_sequence_rule_value_is_dict : forall n es p r fb,
+  peval' (S n) (Seq es) (push (newf p)) = Ok r fb ->
+  (exists nm, In nm (def_single (Seq es)) \/ In nm (def_list (Seq es))) ->
+  ast_get (fast fb) key_at = None ->
+  fold fb = VDict (fast fb) /\
+  forall nm, In nm (def_single (Seq es)) \/ In nm (def_list (Seq es)) -> ast_has (fast fb) (safekey unsafe nm) = true.
+Proof. exact (sequence_rule_value_is_dict text re_at isalnum isalpha lower upper ic unsafe rules ec act lineat). Qed.
+
 (* left / right joins: the flat result e0 op1 e1 op2 e2 ... of the positive join becomes ONE tree, merged into what the
    sequence had collected so far (nothing collected before the join is lost; the cut flag of the caller is untouched) *)
 Theorem C01_assoc_join : forall n lft e f v f',
@@ -123,6 +145,12 @@ Theorem C01_assoc_join : forall n lft e f v f',
 Proof. exact (peval_assoc_keeps_collected text re_at isalnum isalpha lower upper ic unsafe rules ec act lineat). Qed.
 
 End C01.
+
+(* the defaults a fresh frame gets: [] for every list name, None or [] for every other name *)
+Theorem C01_defaults_are_none_or_empty_list : forall unsafe keys list_keys,
+  AllDefault (ast_define unsafe [] keys list_keys) /\
+  (forall k, In k list_keys -> ast_get (ast_define unsafe [] keys list_keys) (safekey unsafe k) = Some (VList false [])).
+Proof. exact define_fresh_defaults. Qed.
 
 (* the trees: a left join nests to the left, ((e0 op1 e1) op2 e2) ..., a right join to the right, e0 op1 (e1 op2 (e2 ...)),
    for ANY number of operands; each node is the open list [op; left; right] *)
@@ -150,6 +178,10 @@ Theorem C01_rule_value_one_element_refuted :
 Proof. exact override_list_is_flattened. Qed.
 Print Assumptions C01_consumed_bounds.
 Print Assumptions C01_assoc_join.
+Print Assumptions C01_names_are_never_removed.
+Print Assumptions C01_sequence_defines_all_names.
+Print Assumptions C01_sequence_rule_value_is_dict.
+Print Assumptions C01_defaults_are_none_or_empty_list.
 Print Assumptions C01_left_join_tree.
 Print Assumptions C01_right_join_tree.
 Print Assumptions C01_left_join_inorder.
